@@ -180,7 +180,7 @@ func c06Deep(open, close string, n int) []byte {
 }
 
 func runC06(c *Ctx) {
-	c.Rep.Rule = "generated valid documents (from destination types and generic): every prefix (all for texts up to 80 bytes, sampled beyond), single-byte mutations at sampled positions with structural bytes, NUL, 0xff, quotes and backslashes, random garbage; nesting depth 1..10^6 (10^7 in the thorough tier) of arrays, objects and mixed, closed and unclosed; every entry point: Unmarshal (interface{}, struct, generated type), UnmarshalNoEscape, Decoder.Decode/More/InputOffset/Buffered with 1-, 3- and 7-byte reads, UseNumber+DisallowUnknownFields, Token, a reader that fails at an arbitrary point, Valid, Compact, Indent, HTMLEscape, Path.Extract with 9 paths, Path.Unmarshal, Path.Get; each call runs in a worker process with a time and address-space limit; verdict: it returns; non-trivial = every case"
+	c.Rep.Rule = "generated valid documents (from destination types and generic): every prefix (all for texts up to 80 bytes, sampled beyond), single-byte mutations at sampled positions with structural bytes, NUL, 0xff, quotes and backslashes, random garbage; nesting depth 1..4*10^6 (10^7 in the thorough tier) of arrays, objects and mixed, closed and unclosed; every entry point: Unmarshal (interface{}, struct, generated type), UnmarshalNoEscape, Decoder.Decode/More/InputOffset/Buffered with 1-, 3- and 7-byte reads, UseNumber+DisallowUnknownFields, Token, a reader that fails at an arbitrary point, Valid, Compact, Indent, HTMLEscape, Path.Extract with 9 paths, Path.Unmarshal, Path.Get; each call runs in a worker process with a time and address-space limit; verdict: it returns; non-trivial = every case"
 	ndocs := 400
 	if c.Thorough() {
 		ndocs = 6000
@@ -233,7 +233,9 @@ func runC06(c *Ctx) {
 		c06All(c, gb, t, "garbage", false)
 	}, func(k int, rng *rand.Rand) string { return fmt.Sprintf("case %d of the mutation group (seeded)", k) }, nil)
 
-	depths := []int{1, 100, 9999, 10000, 10001, 100000, 1000000}
+	// (a frame of the recursive walkers is a few hundred bytes: a missing depth check overflows the 1 GB
+	// stack limit between three and four million levels)
+	depths := []int{1, 100, 9999, 10000, 10001, 100000, 1000000, 4000000}
 	if c.Thorough() {
 		depths = append(depths, 10000000)
 	}
@@ -242,6 +244,18 @@ func runC06(c *Ctx) {
 		dpt := depths[k/len(shapes)]
 		sh := shapes[k%len(shapes)]
 		c06All(c, c06Deep(sh[0], sh[1], dpt), reflect.TypeOf([]interface{}{}), fmt.Sprintf("deep-%d", dpt), false)
+		if dpt > 10000 && dpt <= 100000 {
+			// beyond the nesting limit every walker that visits the whole document reports an error
+			doc := c06Deep(sh[0], sh[1], dpt)
+			var v interface{}
+			err := json.Unmarshal(doc, &v)
+			c.Oracle("depth-limit-is-an-error/Unmarshal", fmt.Sprintf("%q x %d", sh[0], dpt), fmt.Sprintf("err=%v", err), "an error", err != nil, "")
+			for _, ps := range []string{"$..a", "$..zz", "$..a[0]"} {
+				pp, _ := json.CreatePath(ps)
+				_, err := pp.Extract(doc)
+				c.Oracle("depth-limit-is-an-error/Extract "+ps, fmt.Sprintf("%q x %d", sh[0], dpt), fmt.Sprintf("err=%v", err), "an error", err != nil, "")
+			}
+		}
 	}, func(k int, rng *rand.Rand) string {
 		return fmt.Sprintf("nesting depth %d of %q", depths[k/len(shapes)], shapes[k%len(shapes)][0])
 	}, nil)
